@@ -961,7 +961,8 @@ type TernNode struct {
 }
 
 func (n *TernNode) String() string {
-	return operandString(n.Arg1) + "?" + operandString(n.Arg2) + ":" + operandString(n.Arg3)
+	// spaces around '?' and ':' matter: "$a?[1]" would lex '?[' as a null-safe index
+	return operandString(n.Arg1) + " ? " + operandString(n.Arg2) + " : " + operandString(n.Arg3)
 }
 
 func (n *TernNode) Children() []Node {
